@@ -592,9 +592,32 @@ package server
 //@   invariant forall i int :: 0 <= i && i < len(mems) ==> exists k int :: 0 <= k && k < len(zset.members) && zset.members[k] == mems[i]
 //@   decreases len(zset.members) - rangeindex
 
-// (*ZSet).IncBy and the ZINCRBY handler are not under contract: after the member is removed and its score updated, the precondition
-// "ordered by score" of the re-insertion (zset.Add) did not discharge (it needs the order across the removed position together with
-// the fact that no remaining entry is the updated object).
+//@ func (*ZSet).IncBy
+//@ requires {C18} zNN(zset)
+//@ requires {C18} zSorted(zset)
+//@ requires {C18} zUniq(zset)
+//@ requires {C18} !isNaN(inc) && forall i int :: 0 <= i && i < len(zset.members) && zset.members[i].Member == member ==> !isNaN(zset.members[i].Score + inc)
+//@ assigns zset.members, comp:E|Ref, redis.ZSetMember.Score, alloc
+//@ ensures {C18} zNN(zset)
+//@ ensures {C18} zSorted(zset)
+//@ ensures {C18} zUniq(zset)
+// (the exact cardinality - +1 iff the member was absent - needs "Add returns 1 iff the member is new", which made the proof of Add fragile; not claimed)
+//@ ensures {C18} old(zAbsent(zset, member)) ==> result == inc
+//@ ensures {C18} old(len(zset.members)) - 1 <= len(zset.members) && len(zset.members) <= old(len(zset.members)) + 1
+//@ ensures {C18} forall k int :: 0 <= k && k < old(len(zset.members)) && old(zset.members[k].Member) == member ==> result == old(zset.members[k].Score) + inc
+//@ ensures {C18} exists i int :: 0 <= i && i < len(zset.members) && zset.members[i].Member == member && zset.members[i].Score == result
+//@ loop 0
+//@   invariant -1 <= rangeindex && rangeindex < len(zset.members) && tm == nil
+//@   invariant len(zset.members) == old(len(zset.members)) && forall i int :: 0 <= i && i < len(zset.members) ==> zset.members[i] == old(zset.members[i])
+//@   invariant forall i int :: 0 <= i && i <= rangeindex ==> zset.members[i].Member != member
+//@   invariant zNN(zset)
+//@   invariant zSorted(zset)
+//@   invariant zUniq(zset)
+// the entry about to be visited is a different object from every other entry (from zUniq; stated for one index so that it can be used after the removal)
+//@   invariant rangeindex + 1 < len(zset.members) ==> forall k int :: 0 <= k && k < len(zset.members) && k != rangeindex + 1 ==> zset.members[k].Member != zset.members[rangeindex + 1].Member
+//@   decreases len(zset.members) - rangeindex
+
+
 
 // ---------------------------------------------------------------- set / sorted set records and handlers
 
@@ -692,6 +715,20 @@ package server
 //@ ensures {C18} (!old(kHas(server, conn.id, key)) || old(kIsZSet(server, conn.id, key))) ==> err == nil && kIsZSet(server, conn.id, key) && zOK(kZSet(server, conn.id, key))
 //@ ensures {C18} old(kIsZSet(server, conn.id, key)) ==> kZSet(server, conn.id, key) == old(kZSet(server, conn.id, key)) && intReply(result0, len(kZSet(server, conn.id, key).members) - old(len(kZSet(server, conn.id, key).members)))
 //@ ensures {C18} !old(kHas(server, conn.id, key)) ==> intReply(result0, len(kZSet(server, conn.id, key).members))
+//@ ensures {C18} old(hasDB(server, conn.id)) ==> forall q iface :: q != iface(key) ==> sm_dom[&recs(server, conn.id).Map][q] == old(sm_dom[&recs(server, conn.id).Map][q]) && sm_val[&recs(server, conn.id).Map][q] == old(sm_val[&recs(server, conn.id).Map][q])
+
+// ZINCRBY: the member's score becomes old score + inc (inc for a new member), the collection invariants are kept, the reply is the new score;
+// a sum that is not a number (inf + -inf) is refused and nothing is written.
+//@ func (*Server).ZIncBy
+//@ requires {C18} storeOK(server) && conn != nil && !isNaN(inc)
+//@ requires {C18} kIsZSet(server, conn.id, key) ==> zOK(kZSet(server, conn.id, key))
+//@ assigns sm_dom[&server.Databases.Map], sm_val[&server.Databases.Map], sm_dom[&recs(server, conn.id).Map], sm_val[&recs(server, conn.id).Map], ZSet.members, redis.ZSetMember.Score, comp:E|Ref, alloc
+//@ ensures {C18} storeOK(server)
+//@ ensures {C18} err == nil ==> kIsZSet(server, conn.id, key) && zOK(kZSet(server, conn.id, key))
+//@ ensures {C18} err == nil ==> result0 != nil && result0.Type == proto.BulkMessage && exists i int :: 0 <= i && i < len(kZSet(server, conn.id, key).members) && kZSet(server, conn.id, key).members[i].Member == member && string(result0.bytes) == formatF(kZSet(server, conn.id, key).members[i].Score)
+//@ ensures {C18} !old(kHas(server, conn.id, key)) ==> err == nil && len(kZSet(server, conn.id, key).members) == 1 && kZSet(server, conn.id, key).members[0].Score == inc
+//@ ensures {C18} old(kIsZSet(server, conn.id, key)) && old(zAbsent(kZSet(server, conn.id, key), member)) ==> err == nil
+//@ ensures {C18} old(kIsZSet(server, conn.id, key)) ==> kZSet(server, conn.id, key) == old(kZSet(server, conn.id, key))
 //@ ensures {C18} old(hasDB(server, conn.id)) ==> forall q iface :: q != iface(key) ==> sm_dom[&recs(server, conn.id).Map][q] == old(sm_dom[&recs(server, conn.id).Map][q]) && sm_val[&recs(server, conn.id).Map][q] == old(sm_val[&recs(server, conn.id).Map][q])
 
 //@ func (*Server).ZRem
